@@ -225,7 +225,7 @@ class Check(CheckBase):
             "after the first TRACK line; blank lines also between FILE and the first TRACK); x line ending {LF, CRLF}; all PAIRS of single transformations (quick: sheets "
             "with <=2 tracks and every 5th pair; thorough: all); structure compared with the model; image-level (real "
             "files, class + ls text) for all single transformations; 150 / 1500 (thorough also 700 / 6000) copies of an ignorable "
-            "line at every admissible position (sheets of 2 KB .. 90 KB); negative: FILE line removed, non-ASCII byte on each "
+            "line at every admissible position (sheets of 2 KB .. 90 KB; 7000 comment lines / 300 000 blank lines at the first and last position: 84 KB, 300 KB); negative: FILE line removed, non-ASCII byte on each "
             "line, FILE line missing / non-ASCII byte after 20 KB of harmless text -> not a cue sheet and no exception. non-trivial = transformed text differs from canonical")
     assumptions = ["unknown lines between FILE and the first TRACK are outside the statement and not generated"]
 
@@ -285,6 +285,11 @@ class Check(CheckBase):
                         bulk.append(["bulk", pos, uk, count])
             for pos in range(1, first_track + 1):
                 bulk.append(["bulk", pos, 8, 1500])
+            # sheets beyond 64 KiB and beyond 256 KiB (first and last admissible position)
+            ips = insert_positions(recs)
+            for pos in (ips[0], ips[-1]):
+                bulk.append(["bulk", pos, 0, 7000])
+                bulk.append(["bulk", pos, 8, 300000])
             for k, t in enumerate(bulk):
                 ok, klass, detail = run_parse(model, recs, [t])
                 if detail and "lines" in detail:
